@@ -1385,10 +1385,14 @@ def rs_zeta(ctx, s, derivative=0, **kwargs):
         z = ctx.conj(ctx.rs_zeta(ctx.conj(s), derivative))
         return z
     critical_line = (re == 0.5)
-    if critical_line:
-        return zeta_half(ctx, s, derivative)
-    else:
-        return zeta_offline(ctx, s, derivative)
+    prec = ctx.prec
+    try:
+        if critical_line:
+            return zeta_half(ctx, s, derivative)
+        else:
+            return zeta_offline(ctx, s, derivative)
+    finally:
+        ctx.prec = prec
 
 @defun
 def rs_z(ctx, w, derivative=0):
@@ -1397,7 +1401,11 @@ def rs_z(ctx, w, derivative=0):
     if re < 0:
         return rs_z(ctx, -w, derivative)
     critical_line = (im == 0)
-    if critical_line :
-        return z_half(ctx, w, derivative)
-    else:
-        return z_offline(ctx, w, derivative)
+    prec = ctx.prec
+    try:
+        if critical_line :
+            return z_half(ctx, w, derivative)
+        else:
+            return z_offline(ctx, w, derivative)
+    finally:
+        ctx.prec = prec
